@@ -21,7 +21,10 @@ THEOREMS = ['C04_no_panic', 'C04_refused_push_unchanged', 'C04_push_acceptance',
             'C04_closed_absorbing', 'C04_interior_corners_genuine_exact', 'C04_closed_corners_genuine_partial',
             'C04_closed_has_three_refuted', 'C04_small_loop_normal_unset_refuted', 'C04_nan_normal_by_replacement_refuted',
             'C04_closed_collinear_exact_refuted', 'C04_closed_collinear_by_replacement_refuted', 'C04_adjacent_duplicate_refuted',
-            'C04_closed_absorbing_refuted']
+            'C04_closed_absorbing_refuted',
+            # Properties/C04_reach_live.v: the live code (after the fix of push/close)
+            'C04_live_reachable_invariant', 'C04_live_closed_no_collinear_vertex', 'C04_live_interior_corners',
+            'C04_live_push_effect', 'C04_live_push_normal', 'C04_live_closed_absorbing']
 
 def streams(tier):
     if tier == 'quick': return [Stream('C04', 300)]
@@ -188,15 +191,24 @@ def oracle(c, st):
                 a, b, cc = vs[i - 1], vs[i], vs[(i + 1) % mm]
                 if max(abs(x) for x in sub(a, b)) < TOL_COL or max(abs(x) for x in sub(cc, b)) < TOL_COL: return True
                 return len2(cross(sub(b, a), sub(cc, b))) < TOL_COL ** 2 * Fr(101, 100)
-            ok_shapes = []
-            for df in (0, 1):
-                for dl in (0, 1):
-                    if pv[df:m - dl] == cv: ok_shapes.append((df, dl))
-            if not ok_shapes:
-                return ('C04:close-changed-outline', 'close() returned Ok but the vertex list is not the previous one minus first/last vertex')
-            # close() examines the last vertex first; the first vertex is then judged in the outline WITHOUT a dropped
-            # last vertex (e.g. ... v0', q then close: the spike v0' -> q -> v0 goes, after which v0 duplicates v0')
-            if not any((not dl or redundant(m - 1)) and (not df or redundant(0, pv[:m - dl])) for df, dl in ok_shapes):
+            # (the repaired close repeats each drop while the exposed corner is still straight: any number of trailing and
+            # leading vertices may go, each one redundant in the outline as it stood when it was dropped, in SOME order)
+            shapes = [(df, dl) for df in range(m) for dl in range(m - df) if pv[df:m - dl] == cv]
+            if not shapes:
+                return ('C04:close-changed-outline', 'close() returned Ok but the vertex list is not the previous one minus leading/trailing vertices')
+            def reachable(target):
+                seen = set(); todo = [(0, 0)]
+                while todo:
+                    df, dl = todo.pop()
+                    if (df, dl) == target: return True
+                    if (df, dl) in seen or df > target[0] or dl > target[1]: continue
+                    seen.add((df, dl))
+                    cur_vs = pv[df:m - dl]
+                    if len(cur_vs) < 3: continue
+                    if redundant(len(cur_vs) - 1, cur_vs): todo.append((df, dl + 1))
+                    if redundant(0, cur_vs): todo.append((df + 1, dl))
+                return False
+            if not any(reachable(t) for t in shapes):
                 return ('C04:close-dropped-corner', 'close() dropped a vertex that is a genuine corner of the outline')
         prev = cur
     return None
